@@ -18,6 +18,29 @@ def hole_excludes(h, chars):
     return all(c in h.excluded for c in chars)
 
 
+def has_strhole(s):
+    return isinstance(s, SegStr) and any(isinstance(p, StrHole) for p in s.parts)
+
+
+def to_z3str(s):
+    """z3 String term of a string whose holes are all StrHoles."""
+    import z3
+    ps = parts_of(s)
+    terms = []
+    for p in ps:
+        if isinstance(p, str):
+            terms.append(z3.StringVal(p))
+        elif isinstance(p, StrHole):
+            terms.append(p.term)
+        else:
+            raise Unsupported("mixed hole kinds in a symbolic string")
+    if not terms:
+        return z3.StringVal('')
+    if len(terms) == 1:
+        return terms[0]
+    return z3.Concat(*terms)
+
+
 def seg_contains(s, sub):
     """`sub in s` for a concrete sub."""
     if not isinstance(sub, str):
@@ -113,6 +136,11 @@ def seg_endswith(s, suffix):
     if not ps:
         return False
     last = ps[-1]
+    if has_strhole(s) and all(isinstance(p, (str, StrHole)) for p in ps):
+        import z3
+        if isinstance(last, str) and len(last) >= len(suffix):
+            return last.endswith(suffix)
+        return z3.SuffixOf(z3.StringVal(suffix), to_z3str(s))
     if isinstance(last, str):
         if len(last) >= len(suffix):
             return last.endswith(suffix)
@@ -178,6 +206,16 @@ def seg_slice(s, sl):
             raise Unsupported("symbolic string slice bound")
     if a is None and b is None:
         return mkstr(ps)
+    if len(ps) == 1 and isinstance(ps[0], StrHole):
+        import z3
+        t = ps[0].term
+        n = z3.Length(t)
+        if a is None and b < 0:
+            return SegStr([StrHole(z3.SubString(t, 0, n + b), ps[0].excluded)])
+        if b is None and a < 0:
+            k = -a
+            return SegStr([StrHole(z3.If(n >= k, z3.SubString(t, n - k, k), t), ps[0].excluded)])
+        raise Unsupported("slice of a symbolic string")
     if a is None and b < 0:          # s[:-k]
         k = -b
         out = list(ps)
@@ -251,6 +289,12 @@ def seg_equal(a, b):
     pa, pb = parts_of(a), parts_of(b)
     if all(isinstance(p, str) for p in pa) and all(isinstance(p, str) for p in pb):
         return ''.join(pa) == ''.join(pb)
+    if (has_strhole(a) or has_strhole(b)) and all(isinstance(p, (str, StrHole)) for p in pa + pb):
+        return to_z3str(a) == to_z3str(b)
+    if len(pa) == 1 and len(pb) == 1 and isinstance(pa[0], LabelHole) and isinstance(pb[0], LabelHole):
+        if pa[0].term.eq(pb[0].term):
+            return True
+        return pa[0].term == pb[0].term
     if len(pa) == len(pb) and all((x is y) or (isinstance(x, str) and x == y) for x, y in zip(pa, pb)):
         return True
     # compare concrete prefixes and suffixes
@@ -299,6 +343,11 @@ def seg_float(interp, s, node=None):
         return v
     if all(isinstance(p, str) for p in ps):
         return parse_float_text(''.join(ps), ln)
+    if len(ps) == 1 and isinstance(ps[0], StrHole):
+        isf, fv = float_functions()
+        if interp.decide(isf(ps[0].term), f"float({ps[0].term}) accepted"):
+            return fv(ps[0].term)
+        raise Raised('ValueError', ln, 'could not convert string to float', implicit=True)
     # sign/whitespace around a number hole
     if len([p for p in ps if isinstance(p, NumHole)]) == 1 and all(
             isinstance(p, NumHole) or (isinstance(p, str) and p.strip() == '') for p in ps):
